@@ -26,6 +26,7 @@ LEVEL_TEXT = (
     "the input field), optionally mixed with MPilot-style commands, in any order, and loaded; the program must have the "
     "same result names, command classes and cleaned arguments as the MPilot-syntax rendering of the same model, and both "
     "must compute equal results. The name table is enumerated completely; models are sampled."
+    ' Both files are also written with the opening parenthesis on a later line for some commands, and the line of every command is compared between the two programs.'
 )
 LEVEL_NOTE = (
     "No EEMS 2.0 manual is available offline: the table in this module was written from the operation each name denotes and "
